@@ -214,6 +214,8 @@ class Result:
         self.errors = []       # fail-closed conditions (missing anchors, floors)
 
     def violation(self, rule, key, fn=None, line=None, msg='', file=None):
+        if any(v['rule'] == rule and v['key'] == key and v['msg'] == msg for v in self.violations):
+            return   # the same finding reached along several explored paths
         self.violations.append({
             'rule': rule, 'key': key,
             'file': file or (fn.file if fn is not None else None),
